@@ -4,7 +4,7 @@
    is loaded with (default, or p again), c = a component of the package, c' = the component as stored. *)
 From Coq Require Import String Ascii List Bool ZArith Arith.
 Import ListNotations.
-Require Import V.Lib.PyStr V.Lib.JTree V.Conf.Model V.Conf.Proofs V.Reload.Model V.Reload.Proofs V.Reload.Obs V.Reload.Idem.
+Require Import V.Lib.PyStr V.Lib.JTree V.Conf.Model V.Conf.Proofs V.Reload.Model V.Reload.Proofs V.Reload.Obs V.Reload.Idem V.Reload.IdemDoc.
 Open Scope string_scope.
 
 (* Variables: every variable of every component has, in the reloaded document, the value the package gives it on p
@@ -146,6 +146,37 @@ Theorem C07_component_idempotent : forall d d2 p sk c c' c'' bg bs,
 Proof. exact store_comp_idem. Qed.
 Print Assumptions C07_component_idempotent.
 
+(* ... and the other sections of the stored document: flattening the reloaded document (f_doc fd with the environments
+   {default: f_envs fd}, selected platform p again, user variables patched in again) gives the same global variables, the
+   same stage variables (as finite maps), the same global blueprint (as a tree) and the same environments. *)
+Theorem C07_variables_idempotent : forall d envs u p fd sk,
+  flatten_raw d envs u p = Some fd ->
+  fl_global (f_doc fd) p = fl_global d p /\
+  (existsb (String.eqb sk) (stage_keys (d_components d)) = true ->
+   alist_eq (fl_stage (f_doc fd) u p sk) (fl_stage d u p sk)).
+Proof.
+  intros d envs u p fd sk H. split; [exact (reflatten_global d envs u p fd H)|exact (reflatten_stage d envs u p fd sk H)].
+Qed.
+Print Assumptions C07_variables_idempotent.
+
+Theorem C07_blueprint_idempotent : forall d envs u p fd bg bg2,
+  flatten_raw d envs u p = Some fd -> is_dict (bp_global d DEF) ->
+  fl_bp_global d p = Some bg -> fl_bp_global (f_doc fd) p = Some bg2 -> jeq bg2 bg.
+Proof. exact reflatten_bp_global. Qed.
+Print Assumptions C07_blueprint_idempotent.
+
+Theorem C07_environments_idempotent : forall envs p,
+  alist_eq (fl_envs (JDict [(DEF, JDict (fl_envs envs p))]) p) (fl_envs envs p).
+Proof. exact reflatten_envs. Qed.
+Print Assumptions C07_environments_idempotent.
+
+(* The value part: text that holds no reference (no '%': what interpolation leaves behind when every reference was
+   resolved) is a fixed point of the tolerant interpolation of instance(), in every context *)
+Theorem C07_interpolation_closed : forall ctx s, no_pct s ->
+  interp_tol ctx s = Ok s /\ fill_tol ctx (JStr s) = Ok (JStr s).
+Proof. intros ctx s H. split; [exact (interp_tol_plain ctx s H)|exact (fill_tol_plain_str ctx s H)]. Qed.
+Print Assumptions C07_interpolation_closed.
+
 (* non-vacuity: a two-platform package with a user variable; the flattened document exists, the stage filter is
    exercised (g is defined on the default stage and globally on p), the component is stored with the blueprints folded
    in, the environment is merged, and the hypotheses of the theorems hold of it *)
@@ -183,12 +214,15 @@ Example C07_nonvacuous :
   existsb (String.eqb "0") (stage_keys (d_components ex_doc)) = true /\
   uniq (envs_of ex_envs "p") /\
   Forall (fun l => nodict (get_path ["command"; "arguments"] l)) (store_layers ex_doc "p" "0" (hd JNull (d_components ex_doc))) /\
-  clean ex_doc "p" "0" (hd JNull (d_components ex_doc)).
+  clean ex_doc "p" "0" (hd JNull (d_components ex_doc)) /\
+  is_dict (bp_global ex_doc DEF) /\ no_pct "echo-p".
 Proof.
-  split; [|split; [|split; [|split]]].
+  split; [|split; [|split; [|split; [|split; [|split]]]]].
   - eexists. split; [vm_compute; reflexivity|]. vm_compute. repeat split; reflexivity.
   - vm_compute. reflexivity.
   - unfold uniq. vm_compute. repeat constructor. intros [].
   - vm_compute. repeat constructor.
   - unfold clean. vm_compute. repeat constructor.
+  - eexists. vm_compute. reflexivity.
+  - reflexivity.
 Qed.
